@@ -17,7 +17,7 @@ RULE = ('cases = {norm, norm(squared), each with/without an autograd-tracked cor
 ASSUMPTIONS = ['axis arguments are in-range, non-negative, sorted and match the second operand (anything else is C18)',
                'sum/dot results are compared with both sides squeezed: reduce_dims documents dropping singleton modes']
 REQUIRED_REACH = ['_tt_base:TT.norm', '_tt_base:TT.sum', '_extras:dot', '_extras:bilinear_form', '_aux_ops:bilinear_form_aux', '_tt_base:TT.reduce_dims']
-REQUIRED_COUNTS = {'norm/tensor/order1/plain': 1, 'norm/tensor/order>1/plain': 1, 'norm/operator/order1/plain': 1, 'norm/operator/order>1/plain': 1,
+REQUIRED_COUNTS = {'history_value_checks': 200, 'norm/tensor/order1/plain': 1, 'norm/tensor/order>1/plain': 1, 'norm/operator/order1/plain': 1, 'norm/operator/order>1/plain': 1,
                    'norm/tensor/order1/tracked': 1, 'norm/tensor/order>1/tracked': 1, 'norm/operator/order1/tracked': 1, 'norm/operator/order>1/tracked': 1,
                    'sum/tensor/all': 1, 'sum/tensor/partial': 1, 'sum/operator/all': 1, 'sum/operator/partial': 1, 'dot/full': 1, 'dot/partial': 1,
                    'bilinear': 1, 'exact_comparisons': 50}
@@ -70,12 +70,19 @@ def cases(tier, seed):
         cs.append({'gen': 'bilinear', 'M': gens.modes(rng, d, (1, 2, 3, 4), distinct=False), 'N': gens.modes(rng, d, (1, 2, 3, 5), distinct=False),
                    'Rx': gens.rank_profile(rng, d, 'rand', 3), 'RA': gens.rank_profile(rng, d, 'rand', 3), 'Ry': gens.rank_profile(rng, d, 'rand', 3),
                    'dtype': ['f64', 'c128', 'f32'][i % 3], 'vals': 'int' if i % 4 else 'gauss'})
+    from .. import hist
+    cs += hist.cases(PROP, tier, seed)
     return cs
 
 
 def run_case(case, ctx):
     g = gens.tgen(case['seed'])
     globals()['run_' + case['gen']](case, ctx, g)
+
+
+def run_hist(case, ctx, g):
+    from .. import hist
+    hist.run(PROP, case, ctx)
 
 
 def _scalar_out(ctx, key, what, out):
